@@ -412,6 +412,7 @@ pub fn orchestrate(check: &dyn Check, tier: Tier, root: &str, jobs: usize, seed:
             let _ = std::fs::remove_file(&out);
             let skip_s: Vec<String> = skips[sh].iter().map(|x| x.to_string()).collect();
             let child = std::process::Command::new(&exe)
+                .env("VCHECK_RUN_DIR", &scratch)
                 .args(["worker", prop, tier.name(), &sh.to_string(), &nshards.to_string(), &out, &seed.to_string(), &remaining.to_string(), &skip_s.join(",")])
                 .stdin(std::process::Stdio::null())
                 .spawn()
@@ -455,6 +456,7 @@ pub fn orchestrate(check: &dyn Check, tier: Tier, root: &str, jobs: usize, seed:
     for (idx, f) in crash_fails {
         let out = format!("{}/solo{}.json", scratch, idx);
         let st = std::process::Command::new(&exe)
+            .env("VCHECK_RUN_DIR", &scratch)
             .args(["solo", prop, tier.name(), &idx.to_string(), &out])
             .stdin(std::process::Stdio::null())
             .status();
@@ -627,4 +629,11 @@ pub fn solo(check: &dyn Check, tier: Tier, idx: usize, out: Option<&str>, quiet:
             0
         }
     }
+}
+
+/// Scratch directory of the current run (removed by the orchestrator when the run ends)
+pub fn run_dir() -> String {
+    let d = std::env::var("VCHECK_RUN_DIR").unwrap_or_else(|_| format!("/verif/scratch/solo_{}", std::process::id()));
+    std::fs::create_dir_all(&d).ok();
+    d
 }
